@@ -170,6 +170,12 @@ func (p *populator) fill(v reflect.Value, pt pathT) {
 		p.seq++
 		v.SetString(fmt.Sprintf("s%d-%x", p.seq, p.r.Uint64()&0xffffff))
 	case reflect.Array:
+		if t.Elem().Kind() == reflect.Uint8 && p.r.Intn(6) == 0 {
+			// the all-zero value of a byte array (the "nil UUID" that servers send when there is no tracing
+			// id) is as legitimate as any other and is the one value an implementation may be tempted to share
+			p.shape.WriteString("A0")
+			return
+		}
 		for i := 0; i < v.Len(); i++ {
 			p.fill(v.Index(i), pt.index(i))
 		}
